@@ -75,16 +75,28 @@ LEVEL_TEXT = ("Proof (Coq, no axioms) over ALL thread programs and ALL interleav
               "hook runs at most once, and exactly once by the time all operations have finished iff its reference count is 0 "
               "(shutdown_once); at the Shutdown step refs = 0, calls = 0 and no live client resolves to the hook "
               "(shutdown_after_last); every unlocked hook's refs equals the number of live clients resolving to it and Fulfill "
-              "moves the promised hook's references to the target (refs_transfer, refs_transfer_step); calls through "
-              "nil/released/null-resolved clients end with the error result without touching a hook (null_released_error); every "
+              "moves the promised hook's references to the target (refs_transfer, refs_transfer_step); a released client whose "
+              "mutex is free has no hook (released_no_hook), and a call on a nil client, on a released client (once it holds the "
+              "client's mutex) and on a client whose chain ends in a promise resolved to nil ends with the error result, emits no "
+              "event and touches no hook (null_released_error = dead_client_calls, three cases); a call is delivered only to a "
+              "hook that holds a reference, has h_shut = 0 and an open done channel, h_shut equals the number of Shutdown events in "
+              "the log, hence no call is delivered after the hook's Shutdown (call_delivered_live, shut_counts_events, "
+              "no_call_after_shutdown); every "
               "reachable configuration with an unfinished thread has an enabled step (no_stuck: deadlock freedom; chains of "
               "concurrent Fulfill transfer walks are ordered by a ranking of the acyclic resolution graph); the step relation is "
-              "well-founded (terminates: no infinite execution; own_steps_decrease: the per-call measure stage*D + rank of the "
+              "well-founded (terminates: no infinite execution; quiescent_all_finished: a run that cannot continue has finished all "
+              "operations; own_steps_decrease: the per-call measure stage*D + rank of the "
               "hook about to be locked). The pre-fix Fulfill is kept as model variant fixed=false with the machine-found "
               "witness (C10_prefix_refuted). The model is tied to the code by replaying, on the extracted model, the exact "
               "schedules through which the harness drives the real goroutines (synctest + verif yield points), comparing events, "
               "result classes, per-hook refs/calls/done/shutdown counts and the enabled-thread set before every step.")
-LEVEL_NOTE = ("All theorems are for executions in which the callers keep the API contract (model flag misuse = false): the client "
+LEVEL_NOTE = ("CARVE-OUT: all theorems are for executions in which the callers keep the API contract (model flag misuse = false). "
+              "Outside it the IMPLEMENTATION VIOLATES THE PROPERTY AS QUANTIFIED ('any interleaving'): a promise fulfilled with a "
+              "client of itself is shut down with refs > 0 and a later Release panics (close of closed channel) holding both "
+              "mutexes; Release(c) concurrent with Fulfill(_, c) can shut the target down while referenced. These are treated as "
+              "caller errors, not proved safe. Also not modelled: Client.Resolve, Client.String, API calls made re-entrantly from "
+              "inside a call-out; Client.State's IsPromise value under a racing Fulfill (the code reads isResolved() after "
+              "Unlock, the model inside the locked section; nothing else depends on it). The contract: the client "
               "passed to Fulfill stays unreleased during the call, and a promise is never fulfilled with a client that "
               "(transitively) resolves to that promise (the model's cycle check may also flag when its fuel = number of hooks runs "
               "out, which cannot happen on an acyclic graph but is not proved). A WeakClient value is used by one goroutine at a "
